@@ -958,6 +958,18 @@ class ExprMixin:
         # lemma instance: the length of the slice (valid for 0 <= l <= n, 0 <= ln, l+ln <= n)
         # (guarded: bounds used to simplify l/ln may only hold under the current short-circuit guards)
         st.assume(z3.Length(r) == ln)
+        # lemma instances for a slice of a two-part concatenation a ++ b (valid sequence identities):
+        #   within a:            (a++b)[l:l+ln] = a[l:l+ln]                 if l+ln <= |a|
+        #   from inside a to end (a++b)[l:]     = a[l:] ++ b                if l <= |a| and l+ln = |a|+|b|
+        bz = base.z
+        if z3.is_app(bz) and bz.decl().kind() == z3.Z3_OP_SEQ_CONCAT and bz.num_args() == 2:
+            a, b = bz.children()
+            if a.decl().kind() != z3.Z3_OP_SEQ_UNIT:
+                la, lb = self.seq_len(a), self.seq_len(b)
+                st.assume(z3.Implies(z3.And(l >= 0, ln >= 0, l + ln <= la), r == z3.SubSeq(a, l, ln)))
+                st.assume(z3.Implies(z3.And(l >= 0, l <= la, l + ln == la + lb),
+                                     r == z3.Concat(z3.SubSeq(a, l, la - l), b)))
+                st.assume(z3.Implies(z3.And(l >= 0, l <= la), z3.Length(z3.SubSeq(a, l, la - l)) == la - l))
         return SV(t, r)
 
     # ------------------------------------------------------------------
